@@ -130,7 +130,12 @@ impl InputList {
     }
 
     pub fn from_reader(reader: &mut dyn BufRead) -> Result<Self> {
-        let mut reader = Reader::from_reader(reader);
+        // The whole document is held in memory anyway; read it up front so the
+        // result can't depend on how the stream happens to deliver its bytes
+        // (e.g. a byte-order mark split across two reads is not recognised).
+        let mut data = Vec::new();
+        reader.read_to_end(&mut data)?;
+        let mut reader = Reader::from_reader(data.as_slice());
 
         let mut events = Vec::new();
         let mut buf = Vec::new();
